@@ -41,10 +41,30 @@ Theorem child_block_after_parent : forall fuel wt id k fs acts i c,
     flat (S fuel) wt (Node id k fs) = EVisit id :: before ++ flat fuel wt c ++ after.
 Proof. exact flat_child_block. Qed.
 
+(* an error changes nothing about what came before it: the nodes presented by a walk that is stopped
+   at call k+1 are exactly the first k+1 nodes the uninterrupted walk presents, in the same order -
+   the error neither skips a node nor lets one through after it *)
+Theorem stopped_walk_is_a_prefix_of_the_full_walk : forall wt at_ fuel t k,
+  covers wt at_ = true -> well_kinded fuel at_ wt t = true ->
+  k < length (flat fuel wt t) ->
+  exists rest,
+    rev (fst (walk wt None fuel t [])) = rev (fst (walk wt (Some k) fuel t [])) ++ rest
+    /\ length (fst (walk wt (Some k) fuel t [])) = S k
+    /\ snd (walk wt (Some k) fuel t []) = WCallbackErr /\ snd (walk wt None fuel t []) = WOk.
+Proof.
+  intros wt at_ fuel t k Hc Hw Hk.
+  destruct (walker_presents_every_node_once wt at_ fuel t Hc Hw) as [E1 _].
+  rewrite (callback_error_stops_at_once wt at_ fuel t k Hc Hw Hk), E1. cbn [fst snd].
+  exists (skipn (S k) (flat fuel wt t)).
+  rewrite !rev_involutive, firstn_skipn, rev_length, firstn_length.
+  repeat split. apply Nat.min_l. exact Hk.
+Qed.
+
 Print Assumptions walker_presents_every_node_once.
 Print Assumptions callback_error_stops_at_once.
 Print Assumptions parent_presented_first.
 Print Assumptions child_block_after_parent.
+Print Assumptions stopped_walk_is_a_prefix_of_the_full_walk.
 
 (* non-vacuity: a small table and a tree of depth 3 with a zipped pair meet the hypotheses *)
 Definition ex_at : list (nat * nat) := [(0, 1); (1, 2); (2, 0)].
